@@ -42,17 +42,39 @@ pub trait Rule: RuleClone + Debug + Send {
         let (kind, expression) = self.unmake();
         let rendered = escaper.escaped_printable(&expression);
         let unprintable = escaper.has_unprintable(&expression);
+        // the escaped rule ignores a tailing ` (no-eol)`, so an expression that
+        // really ends in that text gets its closing parenthesis escaped
+        let keep_no_eol = |rendered: &str| match rendered.strip_suffix(" (no-eol)") {
+            Some(head) => format!("{head} (no-eol\\x29"),
+            None => rendered.to_string(),
+        };
         match kind.as_str() {
             // equality with unprintable characters can only be written down escaped
-            "equal" | "no-eol" if unprintable => format!("{rendered} (escaped{quantifier})"),
+            "equal" | "no-eol" if unprintable => {
+                format!("{} (escaped{quantifier})", keep_no_eol(&rendered))
+            }
             // an expression that ends like a modifier needs the explicit kind
             "equal" if rendered.ends_with(')') => format!("{rendered} (equal{quantifier})"),
             "equal" => format!("{rendered}{equal_quantifier}"),
             // backslashes are doubled by the escaper only together with unprintables
-            "escaped" if !unprintable => {
-                format!("{} (escaped{quantifier})", rendered.replace('\\', "\\\\"))
-            }
+            "escaped" if !unprintable => format!(
+                "{} (escaped{quantifier})",
+                keep_no_eol(&rendered.replace('\\', "\\\\"))
+            ),
+            "escaped" => format!("{} (escaped{quantifier})", keep_no_eol(&rendered)),
             "glob" if unprintable => format!("{rendered} (escaped) (glob{quantifier})"),
+            // a glob that ends like the escaped marker would lose that text when read
+            // back, unless it is written down escaped
+            "glob"
+                if [" (escaped)", " \\(escaped\\)", " (esc)", " \\(esc\\)"]
+                    .iter()
+                    .any(|marker| rendered.ends_with(marker)) =>
+            {
+                format!(
+                    "{} (escaped) (glob{quantifier})",
+                    rendered.replace('\\', "\\\\")
+                )
+            }
             _ => format!("{rendered} ({kind}{quantifier})"),
         }
     }
